@@ -491,7 +491,11 @@ def r5(ctx, R):
     if not rem:
         R.bad(cm, cm.node, "close_model does not remove the model from the registry", stmt="del self.models[...]")
     else:
-        if not cm.cfg.must_pass(q.nodes_for(cm, rem), cm.cfg.exit):
+        # the only way round the removal is the early return for a model that is not (any more) the one registered
+        r_ = cm.cfg.reach([cm.cfg.entry], avoid=set(q.nodes_for(cm, rem)),
+                          avoid_edges={(n_.id, "T") for n_ in cm.cfg.nodes if n_.kind == "test"
+                                       and norm(n_.ast) == "self.models.get(model.name) is not model"})
+        if cm.cfg.exit in r_:
             R.bad(cm, rem[0], "registry removal is conditional")
         for st in dels:
             key = st.targets[0].slice
